@@ -56,7 +56,7 @@ func main() {
 	}
 	r := evidence.New("C19", "exploration")
 	r.Rule("case = (entry point ∈ {PackManifest v1.0, v1.1, unsupported version, Pack image, Pack artifact}, artifact type ∈ {valid RFC 6838 names incl. lengths 1/127, invalid by each rule incl. 128, empty}, " +
-		"config descriptor given (valid / invalid / empty-JSON media type) | config annotations | neither, layers nil / empty / 1..4 with duplicates, subject or not, manifest annotations nil / empty / some with created absent / valid / malformed / empty / edge, " +
+		"config descriptor given (valid / invalid / empty-JSON media type, content possibly exactly {} under a custom type) | config annotations | neither, layers nil / empty / 1..4 with duplicates, subject absent / plain / carrying artifactType, annotations, platform, urls, data (stored subject must equal the requested descriptor in every field), manifest annotations nil / empty / some with created absent / valid / malformed / empty / edge, " +
 		"target ∈ {memory, oci, file, remote, pusher-only} empty or already holding the placeholder blobs / the whole result, supplied blobs pre-pushed or not); every target is wrapped in a recorder. " +
 		"Success: FetchAll(returned descriptor), parse, field-by-field comparison with an independent builder, existence of invented blobs, CopyGraph into an empty memory store, identical descriptor on repeat with fixed created. " +
 		"Documented rejections: no Push seen (no manifest Push for malformed created). distinct = (entry, artifact-type class, config class, layers class, subject, annotation class, created class, target, preload); " +
@@ -286,6 +286,7 @@ type caseIn struct {
 	Layers       []ocispec.Descriptor
 	LayersClass  string // "nil", "empty", "one", "many", "dup"
 	Subject      *ocispec.Descriptor
+	SubjectClass string // "none", "plain", "rich" (artifactType / annotations / platform / urls / data)
 	Ann          map[string]string
 	AnnClass     string // "nil", "empty", "some"
 	Created      string // class: "absent", "valid", "malformed", "edge"
@@ -382,7 +383,7 @@ var edgeCreated = []string{
 }
 
 func genCase(rng *rand.Rand) *caseIn {
-	c := &caseIn{blobs: map[string][]byte{}}
+	c := &caseIn{blobs: map[string][]byte{}, SubjectClass: "none"}
 	defer func() {
 		if c.Target == "file" {
 			// the file store turns a title annotation into a file name (with its
@@ -431,6 +432,11 @@ func genCase(rng *rand.Rand) *caseIn {
 			}
 		case cls == "valid" && rng.IntN(3) == 0:
 			mt = "application/vnd.oci.image.config.v1+json"
+		}
+		if rng.IntN(3) == 0 && string(body) != "{}" {
+			// content exactly {} (the empty-JSON digest) under whatever media type was chosen
+			body = []byte("{}")
+			c.ConfigClass += "-emptybody"
 		}
 		d := blobDesc(mt, body)
 		if rng.IntN(3) == 0 {
@@ -483,6 +489,29 @@ func genCase(rng *rand.Rand) *caseIn {
 		body := []byte(fmt.Sprintf(`{"schemaVersion":2,"mediaType":%q,"config":{"mediaType":%q,"digest":"sha256:44136fa355b3678a1146ad16f7e8649e94fb4fc21fe77e8310c060f61caaff8a","size":2},"layers":[],"annotations":{"n":"%d"}}`,
 			mtImageManifest, mtEmptyJSON, rng.IntN(1000)))
 		d := blobDesc(mtImageManifest, body)
+		c.SubjectClass = "plain"
+		if rng.IntN(3) > 0 {
+			// a descriptor as a previous PackManifest / Resolve would return it: every field must be kept
+			c.SubjectClass = "rich"
+			if rng.IntN(2) == 0 {
+				d.ArtifactType = pick(rng, validTypes)
+			}
+			if rng.IntN(2) == 0 {
+				d.Annotations = map[string]string{annCreated: "2006-01-02T15:04:05Z", "org.example.subject": "yes"}
+			}
+			if rng.IntN(3) == 0 {
+				d.Platform = &ocispec.Platform{Architecture: "arm64", OS: "linux", Variant: "v8"}
+			}
+			if rng.IntN(3) == 0 {
+				d.URLs = []string{"https://example.com/subject"}
+			}
+			if rng.IntN(3) == 0 {
+				d.Data = body
+			}
+			if d.ArtifactType == "" && d.Annotations == nil && d.Platform == nil && d.URLs == nil && d.Data == nil {
+				d.ArtifactType = "application/vnd.example.subject"
+			}
+		}
 		c.Subject = &d
 		c.blobs[d.Digest.String()] = body
 		c.blobs["sha256:44136fa355b3678a1146ad16f7e8649e94fb4fc21fe77e8310c060f61caaff8a"] = []byte("{}")
@@ -771,7 +800,7 @@ func runCase(phase string, i int) (res worker.Result) {
 	c := genCase(rng)
 	e := expect(c)
 	w := describe(c)
-	res.Key = strings.Join([]string{c.Entry, c.ATClass, c.ConfigClass, c.LayersClass, fmt.Sprint(c.Subject != nil), c.AnnClass, c.Created, c.Target, c.Preload}, "|")
+	res.Key = strings.Join([]string{c.Entry, c.ATClass, c.ConfigClass, c.LayersClass, c.SubjectClass, c.AnnClass, c.Created, c.Target, c.Preload}, "|")
 	res.Observe("entry_x_outcome", c.Entry+"/"+e.Reject+e.Unjudged)
 	res.Observe("target_x_preload", c.Target+"/"+c.Preload)
 	res.Count("cases_target_"+c.Target, 1)
